@@ -286,6 +286,7 @@ STATEMENTS = {
     'close-count': ('SELECT year, count(*) AS n, sum(position) AS s FROM CLOSE ON 2020-03-01 GROUP BY year ORDER BY year', None),
     'balances': ('BALANCES AT cost FROM year = 2020', None),
     'journal': ('JOURNAL "Cash"', None),
+    'journal-cost': ('JOURNAL "Expenses|Assets" AT cost', None),
     'distinct': ('SELECT DISTINCT payee, flag ORDER BY payee, flag', None),
     'entries': ('SELECT type, count(*) AS n FROM #entries GROUP BY type ORDER BY type', None),
     'pivot': ('SELECT account, year, sum(position) AS s GROUP BY 1, 2 PIVOT BY 1, 2', None),
@@ -294,6 +295,7 @@ PAIRS = [('bal2', 'bal1'), ('bal2', 'bal3'), ('bal3', 'subq-in'), ('units-bal', 
          ('param-a', 'param-b'), ('named', 'param-a'), ('open-close', 'close'), ('open-close', 'bal2'), ('balances', 'journal'), ('distinct', 'entries'),
          ('pivot', 'agg'), ('bal2', 'bal2'), ('close', 'bal1'), ('open-close', 'open-close-rows'), ('close', 'close-count'), ('open-close', 'open-close'), ('div', 'div-agg'), ('div-agg', 'bal2'),
          ('ctx-funcs', 'ctx-funcs'), ('ctx-funcs', 'ctx-agg'), ('balances', 'balances'),
+         ('journal', 'journal'), ('journal', 'journal-cost'),
          ('bad-params', 'param-b'), ('bad-params2', 'named'), ('runtime-fail', 'bal2'), ('bad-column', 'agg'), ('bad-params', 'bad-params2')]
 
 
@@ -388,6 +390,11 @@ def build_pair(ctx, rng, pi, mode):
     derived inside the schedule, by whichever thread gets there first."""
     a, b = PAIRS[pi % len(PAIRS)]
     led = ledgers.gen_ledger(rng, ntxn=rng.randint(3, ctx.pick(5, 8)), with_queries=False)
+    if 'journal' in a or 'journal' in b:
+        # texts longer than the widths JOURNAL shortens them to (payee 48, narration 80), so that the width in force matters
+        extra = ''.join(f'2020-0{m}-1{m} * "{"Consolidated Amalgamated International Hardware and Garden Supplies Ltd " * w}" "{"a narration well beyond eighty characters " * 3}{m}"\n'
+                        f'  Assets:Cash  -{m}.00 USD\n  Expenses:Food  {m}.00 USD\n' for m, w in ((1, 1), (2, 2), (3, 1)))
+        led = ledgers.Ledger(led.text + extra)
     led2 = ledgers.gen_ledger(rng, ntxn=rng.randint(3, 6), with_queries=False, renamed_roots=rng.random() < 0.5) if mode == 'different' else None
     (ta, pa), (tb, pb) = STATEMENTS[a], STATEMENTS[b]
     shared_ast = a.startswith('param') and b.startswith('param') and mode == 'shared' and rng.random() < 0.7
@@ -449,9 +456,11 @@ def explore_pair(ctx, pi, mode):
         srng = ctx.rng('pct', pi, mode, r)
         check_schedule(ctx, jobs, serial, None, srng, srng.choice([0.02, 0.1, 0.3]), label, case)
         ctx.count('obs.random_schedules')
-    # line-granular points
-    if not ctx.quick and hasattr(sys, 'monitoring'):
-        for r in range(6):
+    # line-granular points (thorough: every pair; quick: the pairs whose statements shorten texts -- the state a function keeps
+    # between two of its own lines is out of reach of the node-level points)
+    fine = any(x in label for x in ('journal', 'balances'))
+    if (not ctx.quick or fine) and hasattr(sys, 'monitoring'):
+        for r in range(6 if not ctx.quick else 14):
             srng = ctx.rng('line', pi, mode, r)
             check_schedule(ctx, jobs, serial, None, srng, srng.choice([0.005, 0.02]), label + '/lines', case, line_points=True)
             ctx.count('obs.line_granular_schedules')
@@ -562,7 +571,7 @@ def _run(ctx):
             continue
         if ctx.out_of_time():
             break
-        if ctx.quick and m != 'shared' and pi % 4 and not PAIRS[pi][0].startswith(('ctx-', 'balances')):
+        if ctx.quick and m != 'shared' and pi % 4 and not PAIRS[pi][0].startswith(('ctx-', 'balances', 'journal')):
             continue
         explore_pair(ctx, pi, m)
     if ctx.shard == 0:
